@@ -130,21 +130,25 @@ def seed_junk(rng, root, kind, now):
     elif kind == 'foreign-file-root':
         open(os.path.join(root, 'notes.txt'), 'w').close()
     elif kind == 'foreign-dir-root':
-        os.makedirs(os.path.join(root, 'lost+found'), exist_ok=True)
+        if not os.path.lexists(os.path.join(root, 'lost+found')):
+            os.makedirs(os.path.join(root, 'lost+found'))
     elif kind == 'file-named-group':
         open(os.path.join(root, store.group_name(t)), 'w').close() if not os.path.exists(os.path.join(root, store.group_name(t))) else None
     elif kind == 'empty-group':
-        os.makedirs(os.path.join(root, store.group_name(t)), exist_ok=True)
+        if not os.path.lexists(os.path.join(root, store.group_name(t))):
+            os.makedirs(os.path.join(root, store.group_name(t)))
     elif g is None:
         return
     elif kind == 'hidden-in-group':
         open(os.path.join(g, '.hidden'), 'w').close()
     elif kind == 'temp-backup':
         d = os.path.join(g, '.' + store.backup_name(t))
-        os.makedirs(d, exist_ok=True)
-        open(os.path.join(d, 'data.tar.zst'), 'w').close()
+        if not os.path.lexists(d):
+            os.makedirs(d)
+            open(os.path.join(d, 'data.tar.zst'), 'w').close()
     elif kind == 'temp-backup-empty':
-        os.makedirs(os.path.join(g, '.' + store.backup_name(t)), exist_ok=True)
+        if not os.path.lexists(os.path.join(g, '.' + store.backup_name(t))):
+            os.makedirs(os.path.join(g, '.' + store.backup_name(t)))
     elif kind == 'foreign-in-group':
         open(os.path.join(g, 'README'), 'w').close()
     elif kind == 'backup-no-data':
@@ -162,7 +166,8 @@ def seed_junk(rng, root, kind, now):
         if not os.path.exists(p):
             open(p, 'w').close()
     elif kind == 'empty-backup-dir':
-        os.makedirs(os.path.join(g, store.backup_name(t)), exist_ok=True)
+        if not os.path.lexists(os.path.join(g, store.backup_name(t))):
+            os.makedirs(os.path.join(g, store.backup_name(t)))
 
 
 def run_history(ctx, hid, rng, nruns, junk_prob):
